@@ -65,7 +65,13 @@ def build_imputer(kind, model, storage, names, log, inj, spy=True):
     from ixai.imputer import MarginalImputer, DefaultImputer
     if kind == 'none':
         return None
-    if kind == 'joint':
+    if kind == 'joint-own':
+        # the imputer samples from a storage object of ITS OWN (filled by the user), not from the explainer's storage
+        own = build_storage('Batch', log, inj, spy)
+        for i in range(2):
+            own.update({n: F(500 + 10 * i + j) for j, n in enumerate(names)}, None)
+        inner = MarginalImputer(model, 'joint', own)
+    elif kind == 'joint':
         inner = MarginalImputer(model, 'joint', storage)
     elif kind == 'product':
         inner = MarginalImputer(model, 'product', storage)
@@ -86,8 +92,9 @@ class Harness:
         self.inj = Injector() if faults else None
         d = cfg['d']
         self.names = names_of(cfg['names'], d)
+        from .spies import tiny
         self.model = Model(self.names, cfg.get('model', 'scalar'), cfg.get('ignored'), self.log, self.inj,
-                           conv)
+                           conv if not cfg.get('oscale') else tiny)
         self.loss = Loss(cfg.get('model', 'scalar'), cfg.get('loss', 'sq'), self.log, self.inj, conv)
         self.storage = build_storage(cfg['storage'], self.log, self.inj, spy_storage)
         imp_kind = cfg['imputer']
